@@ -20,9 +20,35 @@ KEYFILES = ["/keys/root.key", "/keys/sub.key", "/keys/type.key", "~/.altkey"]
 MASKS = ["", "*", "#", "XX", "<hidden>", "•"]
 
 
-def _keybytes(tag):
+def _keybytes(tag, shape="plain"):
     import hashlib
-    return hashlib.sha256(("persist-key:%s" % tag).encode()).digest()
+    d = hashlib.sha256(("persist-key:%s" % tag).encode()).digest()
+    if shape == "ws":
+        return b"\t" + d[1:31] + b"\r\n"[:1]      # a legal 32-byte key that begins and ends with white space
+    if shape == "nul":
+        return b"\x00" + d[1:31] + b"\x00"
+    return d
+
+
+def live_plain_tree(value):
+    """The values a configuration holds, as a plain tree for the format-domain judgement: binary and hashed values
+    (always written as base64 text) become placeholders, scalar map keys become text as in every format."""
+    if isinstance(value, Config):
+        return {k if isinstance(k, str) else repr(k): live_plain_tree(v) for k, v in value}
+    if type(value).__name__ == "DigestValue":
+        return {"salt": "", "digest": ""}
+    if isinstance(value, (bytes, bytearray)):
+        return ""
+    if isinstance(value, (list, tuple)):
+        return [live_plain_tree(x) for x in (list.__iter__(value) if isinstance(value, list) else value)]
+    if isinstance(value, dict):
+        out = {}
+        for k, v in dict.items(value):
+            if isinstance(k, (int, float)) and not isinstance(k, bool):
+                k = str(k)
+            out[k] = live_plain_tree(v)
+        return out
+    return value
 
 
 def tcanon(t):
@@ -78,7 +104,7 @@ class PersistScenario(StateScenario):
         w = {"set": 5, "assign_sub": 1.5, "load_tree": 1, "lop": 2.5, "dop": 1.5, "dyn": 0.5, "reset": 0.5,
              "save": 3, "restart_load": 2.5, "tree_check": 1}
         if self.prop == "C03":
-            w.update({"set_keyfile": 2, "save": 4, "restart_load": 3, "adopt": 1.5})
+            w.update({"set_keyfile": 2, "save": 4, "restart_load": 3, "adopt": 1.5, "key_event": 1.2})
         if self.prop == "C10":
             w.update({"mask": 6, "save": 0.5, "restart_load": 0.5, "tree_check": 0, "evolve": 0.6})
         return w
@@ -96,6 +122,7 @@ class PersistScenario(StateScenario):
         existing = {k: rng.random() < 0.5 for k in KEYFILES + ["~/.cincokey"]}
         return {"sd": sd, "ncfg": 1, "weights": self.weights(rng), "p_invalid": 0.0, "p_fault": 0.0,
                 "max_ops": rng.randint(6, self.max_ops), "root_key": root_key, "existing_keys": existing,
+                "key_shape": stream(seed, "key-shape").choice(["plain", "plain", "plain", "ws", "nul"]),
                 "formats": rng.sample(ops.FORMATS, rng.randint(1, 5)), "avoid": sorted(avoid)}
 
     # =========================================================================== session
@@ -109,7 +136,7 @@ class PersistScenario(StateScenario):
         st.ctx = values.Ctx(world, plain=True)
         for k, present in header["existing_keys"].items():
             if present:
-                world.poke(world.expanduser(k), _keybytes(k))
+                world.poke(world.expanduser(k), _keybytes(k, header.get("key_shape", "plain")))
         st.docs = []
         st.session = 0
         st.keyset = {}     # serial of a config object -> filename explicitly set on it (None = cleared)
@@ -267,8 +294,22 @@ class PersistScenario(StateScenario):
             opts["root_tag"] = rng.choice(["cfg", "settings"])
         if fmt == "json" and rng.random() < 0.4:
             opts["pretty"] = False
-        return {"op": "save", "fmt": fmt, "opts": opts, "file": rng.choice(["/data/c1.cfg", "/data/c2.cfg", "~/c3.cfg", "out.cfg"]),
-                "virtual": rng.random() < 0.2}
+        op = {"op": "save", "fmt": fmt, "opts": opts, "file": rng.choice(["/data/c1.cfg", "/data/c2.cfg", "~/c3.cfg", "out.cfg"]),
+              "virtual": rng.random() < 0.2}
+        if self.prop == "C03" and rng.random() < 0.08:
+            keys = sorted(p for p in st.world.files if p.startswith("/keys/") or p.endswith(".cincokey"))
+            if keys:
+                # the key file exists but cannot be opened this once
+                op["faults"] = [{"seam": "open:r", "nth": 1, "path": rng.choice(keys), "errno": rng.choice(["EIO", "EACCES", "EMFILE"]), "kind": "open-err"}]
+        elif self.prop in ("C02", "C03") and rng.random() < 0.3:
+            # a key file that does not exist yet cannot be created this once (the save fails; a later one must work)
+            w = st.world
+            owners, nodes = self.cfg_nodes(st, cfg)
+            want = sorted({w.abspath(w.expanduser(self.key_for(st, cfg, lp, owners, nodes))) for lp in owners})
+            missing = [p for p in want if w.peek(p) is None]
+            if missing:
+                op["faults"] = [{"seam": "open:w", "nth": 1, "path": rng.choice(missing), "errno": rng.choice(["EIO", "EACCES", "ENOSPC"]), "kind": "open-err"}]
+        return op
 
     def gen_restart_load(self, st, rng, cfg, tgts, cfgpaths, owners):
         if not st.docs:
@@ -292,6 +333,46 @@ class PersistScenario(StateScenario):
         paths = [""] + [p for p, c in cfgpaths]
         return {"op": "set_keyfile", "path": rng.choice(paths), "file": rng.choice(KEYFILES + [None])}
 
+    def gen_key_event(self, st, rng, cfg, tgts, cfgpaths, owners):
+        """The key file changes under a living configuration: torn, put back, replaced by another valid key, removed."""
+        w = st.world
+        keys = sorted(p for p in w.files if p.startswith("/keys/") or p.endswith(".cincokey"))
+        if not keys:
+            return None
+        bak = getattr(st, "keybak", {})
+        if bak and rng.random() < 0.6:
+            return {"op": "key_event", "what": "restore", "path": rng.choice(sorted(bak))}
+        return {"op": "key_event", "what": rng.choice(["damage", "damage", "rotate", "rotate", "remove"]), "path": rng.choice(keys)}
+
+    def do_key_event(self, st, cfg, c, op, rec):
+        import hashlib
+        w = st.world
+        p, what = op["path"], op["what"]
+        bak = st.__dict__.setdefault("keybak", {})
+        cur = w.peek(p)
+        if what == "restore":
+            if p not in bak:
+                rec.log("key_event", "skip")
+                return
+            w.poke(p, bak.pop(p))
+        elif cur is None:
+            rec.log("key_event", "skip")
+            return
+        elif what == "damage":
+            if len(cur) == 32:
+                bak[p] = bytes(cur)
+            w.poke(p, bytes(cur)[:16])
+        elif what == "rotate":
+            bak.pop(p, None)
+            w.poke(p, hashlib.sha256(("%s#%d" % (p, w.step)).encode()).digest())
+        else:
+            bak.pop(p, None)
+            w.unlink_quiet(p)
+        # documents written under the previous content of the key file are not expected to load any more
+        st.docs = []
+        rec.log("key_event", what, p)
+        rec.probe("key-file-" + what)
+
     def gen_mask(self, st, rng, cfg, tgts, cfgpaths, owners):
         how = rng.choice(["tree", "tree", "dumps", "save"])
         op = {"op": "mask", "how": how, "mask": rng.choice(MASKS + [None]), "virtual": rng.random() < 0.2}
@@ -302,7 +383,7 @@ class PersistScenario(StateScenario):
     # =========================================================================== execution
     def apply(self, st, op, rec):
         kind = op["op"]
-        if kind in ("save", "restart_load", "tree_check", "set_keyfile", "mask", "adopt", "evolve"):
+        if kind in ("save", "restart_load", "tree_check", "set_keyfile", "mask", "adopt", "evolve", "key_event"):
             getattr(self, "do_" + kind)(st, st.cfgs[0], 0, op, rec)
             return
         super().apply(st, op, rec)
@@ -368,21 +449,6 @@ class PersistScenario(StateScenario):
             rec.log("save", "state-not-valid")
             rec.probe("save-skipped:invalid-state")
             return
-        # is the state representable in this format?  judged on the plain tree without secrets
-        tree0, err0 = self._call(lambda: cfg.to_tree())
-        if err0 is not None:
-            if self.prop == "C02":
-                rec.fail("C02/save", "C02/to-tree-raises/%s" % type(err0).__name__, "to_tree() of a valid state raised %r" % (err0,))
-            rec.log("save", "to_tree-raised")
-            return
-        if plain_only(tree0) or not ops.in_format_domain(fmt, tree0):
-            rec.log("save", "out-of-domain", fmt)
-            rec.probe("save-skipped:out-of-domain")
-            if self.prop == "C02" and plain_only(tree0):
-                self.check_tree_shape(st, cfg, tree0, False, rec, "to_tree")
-            return
-        if self.prop == "C02":
-            self.check_tree_shape(st, cfg, tree0, False, rec, "to_tree")     # what is about to be saved is plain data
         view = self.view(st, cfg)
         secrets = self.secrets_in(st, cfg)
         owners, nodes = self.cfg_nodes(st, cfg)
@@ -390,7 +456,25 @@ class PersistScenario(StateScenario):
         allkeys = sorted({self.key_for(st, cfg, lp, owners, nodes) for lp in owners})   # the key file of every configuration in the tree
         j0 = len(w.journal)
         kw = dict(opts)
+        nfired = len(w.fired)
+        # the save comes first: nothing the harness does may warm up (or use up) state inside the library beforehand
+        dest = w.abspath(w.expanduser(fname))
+        before = w.peek(dest)
         _, err = self._call(lambda: cfg.save(fname, fmt, **kw))
+        if w.peek(dest) != before:
+            # whatever is judged below, an earlier document under this name is gone
+            st.docs = [d for d in st.docs if w.abspath(w.expanduser(d["file"])) != dest]
+        if err is not None and len(w.fired) > nfired:
+            rec.log("save", fname, fmt, "failed-under-injected-fault", type(err).__name__)
+            rec.probe("save-failed-under-injected-fault")
+            return
+        # was the state representable in this format?  judged on the values the configuration holds, without calling into
+        # the library again (an extra to_tree() would open the key file and could mask or heal what the save left behind)
+        tree0 = live_plain_tree(cfg)
+        if plain_only(tree0) or not ops.in_format_domain(fmt, tree0):
+            rec.log("save", "out-of-domain", fmt)
+            rec.probe("save-skipped:out-of-domain")
+            return
         rec.log("save", fname, fmt, sorted(opts), type(err).__name__ if err else "ok", len(secrets))
         rec.kind(fmt + (":ok" if err is None else ":err"))
         if err is not None:
@@ -810,6 +894,16 @@ class PersistScenario(StateScenario):
                              "sensitive value of %s occurs in the %s document rendered with mask %r" % (path, fmt, mask))
         if tree is not None:
             for path, value, node in nons:
+                if node["kind"] == "secure":
+                    # declared not sensitive: still rendered in its stored (encrypted) form; the ciphertext itself differs
+                    # between two renderings (fresh IV), so the comparison is on the shape and the method
+                    a, b = self.tree_at(tree, path), self.tree_at(plain_tree, path)
+                    rec.check()
+                    if not self.trees_equal_modulo_secrets(a, b):
+                        rec.fail("C10/others", "C10/non-sensitive-altered/%s/secure" % how,
+                                 "secure field %s declared sensitive=False renders as %r with a mask and %r without" % (path, a, b))
+                    rec.probe("non-sensitive-secure-field-compared")
+                    continue
                 if node["kind"] in ("secure", "virtual") or (node.get("item") or {}).get("kind") == "secure" or (node.get("vf") or {}).get("kind") == "secure":
                     continue
                 a, b = self.tree_at(tree, path), self.tree_at(plain_tree, path)
